@@ -112,6 +112,9 @@ func c06String(r *Run, s []byte) {
 	}
 	if p2 := l2.String(); p2 != p1 {
 		f := Failure{Oracle: "print is a fixed point of parse-then-print", Op: line, Got: p1 + " -> " + p2}
+		// NOTE (audit S7): the excuse is the shape of the RESULT (an adjacent reducible pair is left in a
+		// Joined), which is close to the negation of the test; an evaluation-level guard on the PARSED
+		// parts (op k3.parse) is not built yet — see checks/C06.json assumptions
 		if isK3(l) {
 			f.Finding = "K3"
 		}
